@@ -89,7 +89,7 @@ impl DetectProp for C04 {
             let regular = chaos.is_finite() && chaos >= 0.0 && chaos < s.thr;
             if !regular {
                 // must be the single fallback match
-                let declared = if s.pre { vh::any_specified_encoding(&case.bytes, 4096) } else { None };
+                let declared = if s.pre { independent_declared(&case.bytes, 4096) } else { None };
                 let sig = MARKS.iter().find(|(_, mk)| case.bytes.starts_with(mk)).map(|(e, _)| e.to_string());
                 let hint = m.encoding() == "ascii" || m.encoding() == "utf-8" || Some(m.encoding().to_string()) == declared || Some(m.encoding().to_string()) == sig;
                 let ok = n == 1 && s.fb && chaos == s.thr && hint;
